@@ -184,6 +184,7 @@ def check(model, R, tier):
             and len({norm(n.target) for n in incs}) == 3
     R.ob('C12.ONCE', npf.qualname, 'total / trainable / frozen counters over self.parameters()', ok, 'each parameter element must be counted once, in exactly one of trainable / non-trainable', npf.loc)
     check_mode(model, R, 'C12')
+    check_super_roles(model, R, 'C12')
     # ---------------------------------------------------------------- SUBCLASS
     subs = model.subclasses(MOD)
     R.rule('C12.SUBCLASS', 'every Module subclass calls super().__init__() before assigning attributes, overrides none of __setattr__/parameters/submodules/train/eval/register_*, and has a forward', floor=len(subs))
@@ -325,3 +326,47 @@ def check_mode(model, R, P):
             b = loops[0].body
             ok = len(b) == 1 and isinstance(b[0], ast.Assign) and norm(b[0].targets[0]) == '%s.%s' % (v, body_ok[0]) and isinstance(b[0].value, ast.Constant) and b[0].value.value is body_ok[1]
         R.ob(P + '.MODE', f.qualname, 'loop over self.parameters()', ok, '%s must act on exactly the parameters reported by parameters()' % name, f.loc)
+
+
+def check_super_roles(model, R, P):
+    """a subclass constructor that forwards its own parameters to super().__init__ binds each of them to the base-class parameter of the same name
+    (swapping two same-typed flags, e.g. affine / track_running_stats, type-checks and passes every symmetric test)"""
+    from sa.rules_template import bind_call
+    subs = [c for c in model.subclasses(MOD)]
+    R.rule(P + '.SUPER-ROLES', 'arguments forwarded to super().__init__ reach the base-class parameter of the same name', floor=3)
+    n = 0
+    for c in subs:
+        ini = c.methods.get('__init__')
+        if ini is None:
+            continue
+        bases = model.mro(c)[1:]
+        base_init = None
+        for b in bases:
+            if '__init__' in b.methods:
+                base_init = b.methods['__init__']
+                break
+        if base_init is None:
+            continue
+        for call in [x for x in ast.walk(ini.node) if isinstance(x, ast.Call) and norm(x.func) == 'super().__init__']:
+            # bind against the base constructor without its self parameter
+            class _NoSelf:
+                qualname = base_init.qualname
+                pos_params = base_init.pos_params[1:]
+            try:
+                b, star = bind_call(call, _NoSelf)
+            except Incomplete as u:
+                R.incomplete_at(P + '.SUPER-ROLES', c.qualname, str(u))
+                continue
+            bparams = set(base_init.pos_params[1:]) | {a.arg for a in base_init.node.args.kwonlyargs}
+            bad = []
+            fwd = 0
+            for bp, arg in b.items():
+                if isinstance(arg, ast.Name) and arg.id in ini.params and arg.id in bparams:
+                    fwd += 1
+                    if arg.id != bp:
+                        bad.append('%s -> %s' % (arg.id, bp))
+            if fwd:
+                n += 1
+                R.ob(P + '.SUPER-ROLES', c.qualname, 'super().__init__(%s)' % ', '.join('%s=%s' % (k, norm(v)) for k, v in b.items())[:140], not bad,
+                     'constructor argument(s) forwarded to the wrong base-class parameter: %s' % bad, ini.loc)
+    return n
